@@ -808,6 +808,35 @@ fn fifo_preds(a: &Analysis, v: &mut Vec<Viol>, f: &mut Feat) {
         }
     }
     f.add("ordered_pairs_both_registered", simultaneous_reg);
+    // waiting receivers are served in the order they registered: if RA was already waiting
+    // before RB began, a send that completed before another send began must not have served
+    // RB while leaving RA for the later one
+    for x in del.iter() {
+        for y in del.iter() {
+            if x.0 == y.0 {
+                continue;
+            }
+            let (ra, rb) = (x.2, y.2);
+            if ra == rb {
+                continue;
+            }
+            let (Some(reg_a), Some(_)) = (a.on[ra].reg_recv, a.on[rb].reg_recv) else { continue };
+            if reg_a < a.ops[rb].inv {
+                let (sa, sb) = (x.1, y.1);
+                // both served directly (their sends never waited themselves)
+                if a.on[sa].reg_send.is_none() && a.on[sb].reg_send.is_none() && retx(&a.ops[sb]) < a.ops[sa].inv {
+                    v.push(Viol {
+                        pred: "receiver_order",
+                        op: Some(rb as u32),
+                        detail: format!(
+                            "receive op {} was waiting (registered at {}) before receive op {} began (at {}), yet the earlier send (op {}, value {}) served the later waiter and the later send (op {}, value {}) the earlier one",
+                            ra, reg_a, rb, a.ops[rb].inv, sb, y.0, sa, x.0
+                        ),
+                    });
+                }
+            }
+        }
+    }
     // a cancel / timeout that removed a registered sender
     for (i, o) in a.ops.iter().enumerate() {
         if o.k.is_send()
@@ -1573,6 +1602,11 @@ fn polling_preds(a: &Analysis, v: &mut Vec<Viol>, f: &mut Feat) {
         for (wi, w) in o.wakers.iter().enumerate() {
             if wi + 1 >= o.wakers.len() {
                 break;
+            }
+            if o.wakers[wi + 1..].contains(w) {
+                // the same waker identity became current again later (sibling wakers): its
+                // wake is not a stale one
+                continue;
             }
             if o.k == K::StreamNext && wi == 0 {
                 // the stream's own waker is shared by all waits on that stream: a sender of the
